@@ -36,6 +36,8 @@ def cases(tier, seed):
         yield {"fam": "paircode", "i": i}
     for i in range(6 if tier == "quick" else 48):
         yield {"fam": "huge_labels", "i": i}
+    for i in range(18 if tier == "quick" else 180):
+        yield {"fam": "bigvol", "i": i}
 
 
 def setup(ctx):
@@ -99,6 +101,17 @@ def run(case, ctx):
             pred[10 * k + k + 1 : 10 * k + 8] = pl[k]
         cfg = {"input": "UNMATCHED_INSTANCE", "matcher": {"kind": "naive", "metric": "IOU", "thr": 0.3, "m2o": False}}
         ctx.count("f:family.labels_beyond_2^24")
+        a = judge(ctx, pred, refa, cfg)
+        if a:
+            ctx.nontrivial(gen.arr_key(pred, refa), cfg)
+        return
+    if fam == "bigvol":
+        pred, refa = gen.big_volume_pair(ctx.seed, i, ctx.tier)
+        it = ["UNMATCHED_INSTANCE", "SEMANTIC"][i % 2]
+        if it == "SEMANTIC":
+            pred, refa = gen.to_semantic(pred, r, 2), gen.to_semantic(refa, r, 2)
+        cfg = {"input": it, "backend": [None, "cc3d", "scipy"][i % 3], "matcher": {"kind": "naive", "metric": ["IOU", "DSC"][(i // 2) % 2], "thr": [0.3, 0.4][(i // 4) % 2], "m2o": False}}
+        ctx.count("f:family.big_sparse_volume")
         a = judge(ctx, pred, refa, cfg)
         if a:
             ctx.nontrivial(gen.arr_key(pred, refa), cfg)
